@@ -61,12 +61,19 @@ Theorem C01_tags_set_nil_refuted :
 Proof. exact tags_set_nil_loses_value. Qed.
 Print Assumptions C01_tags_set_nil_refuted.
 
-(* Conversely: for every line of the C02 grammar (valid UTF-8 fields, de-duplicated tag
+(* Conversely: for every line of the C02 grammar (valid UTF-8, de-duplicated tag
    section within the limit), parsing it, serialising the result and parsing again yields
    the same event. *)
-Require Import StableProofs.
-Theorem C01_parse_stable : forall a, wf_ast a -> ast_utf8 a = true -> ast_tags_fit a = true ->
+Require Import Utf8 StableProofs LineUtf8 SetFits.
+Theorem C01_parse_stable : forall a, wf_ast a -> valid_utf8 (render a) = true -> ast_tags_fit a = true ->
   exists e e', parse_event (render a) = Ok (Some e) /\
                parse_event (event_bytes e) = Ok (Some e') /\ wevent_equiv e' e.
-Proof. exact parse_stable. Qed.
+Proof. exact parse_stable_line. Qed.
 Print Assumptions C01_parse_stable.
+
+(* Tag maps built through the API -- Tags{} followed by successful Tags.Set calls -- meet
+   every condition wf_event puts on a tag map, including the 4094-byte limit: the tag
+   hypothesis of C01_encode_parse holds for them. *)
+Theorem C01_api_built_wf : forall m, api_built m -> wf_wtags (Some m) = true.
+Proof. exact api_built_wf. Qed.
+Print Assumptions C01_api_built_wf.
